@@ -43,6 +43,15 @@ type HandSpec struct {
 	// RootData: "" | "empty" (the root's UnixFS message has a Data field of
 	// length 0 although it has links: present-but-empty, legal)
 	RootData string
+	// Inline: "odd" = every second leaf (the 2nd, 4th, ...) is linked by an
+	// identity-multihash CID: the block travels inside its link, as
+	// `ipfs add --inline` writes small leaves (a link system hands such a link
+	// to its storage like any other)
+	Inline string
+	// NodeType: "" (File) | "raw": the root and the interior nodes carry UnixFS
+	// type Raw although they have links (the go-unixfs reader treats Raw and File
+	// nodes alike)
+	NodeType string
 }
 
 func l(n int, seed byte) HandNode {
@@ -103,6 +112,13 @@ func HandFamily() []HandSpec {
 				if (lk == "pbfile" || lk == "raw") && bs == "all" {
 					out = append(out, HandSpec{Label: fmt.Sprintf("hand %s leaves=%s blocksizes=all filesize=true packed", n, lk),
 						Root: shapes[n], LeafKind: lk, BlockSizes: bs, FileSize: true, Tsize: true, PackedBlockSizes: true})
+				}
+				// every second leaf inlined in its link; Raw-typed nodes with links
+				if (lk == "raw" || lk == "pbfile") && bs == "all" {
+					out = append(out, HandSpec{Label: fmt.Sprintf("hand %s leaves=%s blocksizes=all filesize=true inline=odd", n, lk),
+						Root: shapes[n], LeafKind: lk, BlockSizes: bs, FileSize: true, Tsize: true, Inline: "odd"})
+					out = append(out, HandSpec{Label: fmt.Sprintf("hand %s leaves=%s blocksizes=all filesize=true nodetype=raw", n, lk),
+						Root: shapes[n], LeafKind: lk, BlockSizes: bs, FileSize: true, Tsize: true, NodeType: "raw"})
 				}
 				// links without Tsize / with Tsize 0: only where the reader does
 				// not need it (dag-pb children sized by BlockSizes)
@@ -208,6 +224,12 @@ func (h HandSpec) Build(s *store.Store) (cid.Cid, []byte) {
 				blk = model.EncodePB(&model.PBNode{Data: db, HasData: true})
 				c, _ = V1PB.Sum(blk)
 			}
+			if h.Inline == "odd" && leafNo%2 == 0 {
+				// leafNo was already advanced: the 2nd, 4th, ... leaf
+				if ic, err := (cid.Prefix{Version: 1, Codec: c.Prefix().Codec, MhType: 0x00, MhLength: -1}).Sum(blk); err == nil {
+					c = ic
+				}
+			}
 			s.Put(c, blk)
 			return c, n.Content, uint64(len(blk))
 		}
@@ -235,6 +257,9 @@ func (h HandSpec) Build(s *store.Store) (cid.Cid, []byte) {
 			cum += ccum
 		}
 		t := pb.Data_File
+		if h.NodeType == "raw" {
+			t = pb.Data_Raw
+		}
 		d := &pb.Data{Type: &t}
 		switch h.BlockSizes {
 		case "all":
